@@ -146,7 +146,7 @@ impl Runner {
             if let Some(v) = self.sc.died(if step_budget { "step-budget" } else { "sim-abort" }, &e) {
                 return CaseResult { verdict: Verdict::Violation, violations: vec![(v.sig, v.detail)], body: json!({"died": e}), note: e };
             }
-            return CaseResult { verdict: Verdict::HarnessError, violations: vec![], body: Value::Null, note: e };
+            return CaseResult { verdict: Verdict::HarnessError, violations: vec![], body: Value::Null, note: format!("{} ; {}", e, panics.trim()) };
         }
         match res {
             Some(s) if libc::WIFEXITED(st) && libc::WEXITSTATUS(st) == 0 => {
